@@ -130,6 +130,22 @@ let () = iter_lines (fun line ->
           out (asm_rows bs st (zi vs) rows) (c_rows bc one (zi 1) (zi vs) rows)
         end
       end
+  | "idctfst" :: _ ->
+      let fs = fields line in
+      let cf = zl (List.tl (ints (List.nth fs 0 |> fun x -> "0 " ^ (String.sub x 7 (String.length x - 7))))) and q = zl (ints (List.nth fs 1)) in
+      Printf.printf "S %s | C %s ; W%d\n" (prz (asm_idct_ifast cf q)) (prz (c_idct_ifast cf q)) (if c_idct_ifast_ok cf q then 0 else 1)
+  | "idctint" :: _ ->
+      let fs = fields line in
+      let x = List.nth fs 0 in
+      let cf = zl (ints (String.sub x 7 (String.length x - 7))) and q = zl (ints (List.nth fs 1)) in
+      Printf.printf "S %s | C %s ; W%d\n" (prz (asm_idct_islow cf q)) (prz (c_idct_islow cf q)) (if c_idct_islow_ok cf q then 0 else 1)
+  | "fdctint" :: _ ->
+      let fs = fields line in
+      let x = List.nth fs 0 in
+      let blk = zl (ints (String.sub x 7 (String.length x - 7))) in
+      Printf.printf "S %s | C %s ; W%d\n" (prz (asm_fdct_islow blk)) (prz (c_fdct_islow blk)) (if c_fdct_islow_ok blk then 0 else 1)
+  | [ "rangelimit" ] ->
+      let t = pr_ints (List.init 1024 (fun i -> iz (idct_range_limit (zi i)))) in Printf.printf "S %s | C %s\n" t t
   | "fdctfst" :: xs ->
       let blk = zl (List.map int_of_string xs) in
       Printf.printf "S %s | C %s ; W%d\n" (prz (asm_fdct_ifast blk)) (prz (c_fdct_ifast blk)) (if c_wraps14 blk then 1 else 0)
